@@ -761,6 +761,25 @@ func (w *World) Exec(o *Op) *Obs {
 		for _, g := range o.Grants {
 			per[g[0]] = append(per[g[0]], g[1])
 		}
+		if o.Mode == "xml" {
+			// the same ACL as an AccessControlPolicy document (one Grant element per pair, a grantee may repeat);
+			// the document names the bucket's owner, asked from the gateway by root first
+			ar := gw.Do(w.addr(), gw.Req{Method: "GET", Path: bpath, Query: "acl", Auth: "header", Creds: w.Root})
+			var cur xmlACL
+			xml.Unmarshal(ar.Body, &cur)
+			var b bytes.Buffer
+			b.WriteString(`<AccessControlPolicy xmlns="http://s3.amazonaws.com/doc/2006-03-01/"><Owner><ID>`)
+			xml.EscapeText(&b, []byte(cur.Owner.ID))
+			b.WriteString(`</ID></Owner><AccessControlList>`)
+			for _, g := range normGrants(o.Grants) { // the order in which grant headers are applied (the stored order is not compared)
+				b.WriteString(`<Grant><Grantee xmlns:xsi="http://www.w3.org/2001/XMLSchema-instance" xsi:type="CanonicalUser"><ID>`)
+				xml.EscapeText(&b, []byte(g[1]))
+				b.WriteString(`</ID></Grantee><Permission>` + g[0] + `</Permission></Grant>`)
+			}
+			b.WriteString(`</AccessControlList></AccessControlPolicy>`)
+			req.Body = b.Bytes()
+			break
+		}
 		for p, accs := range per {
 			req.Set(hdr[p], strings.Join(accs, ","))
 		}
